@@ -96,6 +96,21 @@ fn run(route: &str, text: &str, lit: &str) -> Result<Result<String, String>, Str
                 .map_err(e)
                 .and_then(|m| ok(*m.keys().next().unwrap()))
         }
+        "json_any" => conjure_serde::json::client_from_str::<Any>(text).map_err(e)?.deserialize_into::<SafeLong>().map_err(e).and_then(ok),
+        "json_any_key" => conjure_serde::json::server_from_str::<Any>(&format!("{{\"{text}\":1}}"))
+            .map_err(e)?
+            .deserialize_into::<BTreeMap<SafeLong, i32>>()
+            .map_err(e)
+            .and_then(|m| ok(*m.keys().next().unwrap())),
+        "json_any_nested" => conjure_serde::json::client_from_str::<Any>(&format!("{{\"v\":[{text}]}}"))
+            .map_err(e)?
+            .deserialize_into::<BTreeMap<String, Vec<SafeLong>>>()
+            .map_err(e)
+            .and_then(|m| ok(m["v"][0])),
+        "smile_any" => {
+            let b = conjure_serde::smile::to_vec(&parse!(u64)).map_err(e)?;
+            conjure_serde::smile::client_from_slice::<Any>(&b).map_err(e)?.deserialize_into::<SafeLong>().map_err(e).and_then(ok)
+        }
         other => return Err(format!("unknown route {other}")),
     })
 }
